@@ -66,7 +66,7 @@ class GEXTest:
             # Parse the server's KEX.
             _, payload = s.read_packet(2)
             SSH2_Kex.parse(out, payload)
-        except (KexDHException, struct.error):
+        except Exception:  # KexDHException, struct.error, SSH_Socket.InvalidPacketException...
             out.v("Failed to parse server's kex.  Stack trace:\n%s" % str(traceback.format_exc()), write_now=True)
             return False
 
@@ -228,7 +228,7 @@ class GEXTest:
                 kex_group.recv_reply(s, False)
                 smallest_modulus = kex_group.get_dh_modulus_size()
                 out.d('GEXTest._send_init(%s, %u, %u, %u): received modulus size: %d' % (gex_alg, min_bits, pref_bits, max_bits, smallest_modulus), write_now=True)
-        except KexDHException as e:
+        except Exception as e:  # Whatever the server sends must not end the audit: KexDHException, struct.error, ValueError, SSH_Socket.InvalidPacketException...
             out.d('GEXTest._send_init(%s, %u, %u, %u): exception when performing DH group exchange init: %s' % (gex_alg, min_bits, pref_bits, max_bits, str(e)), write_now=True)
         finally:
             s.close()
